@@ -940,6 +940,8 @@ def c10(ctx):
 def ws_model(ctx):
     tlc_must_hold(ctx, "WsShim", "WsShim_MC.cfg", timeout=1200)
     tlc_must_fail(ctx, "WsShim", "WsShim_Attack_CloseClosesChan.cfg")
+    tlc_must_fail(ctx, "WsShim", "WsShim_Attack_DrainByCount.cfg")         # two polls over-count the backlog: panic once the backend closes
+    tlc_must_fail(ctx, "WsShim", "WsShim_Attack_DrainByCount_Live.cfg")    # ... or one of them is never answered
 
 
 def ws_cases(ctx):
@@ -1416,8 +1418,13 @@ def c19(ctx):
     segs, fails = app_validate(ctx, events, "relay", {"RelayCase", "BlobCase", "FaultCase"})
     ok = [s for s in segs if not any(s is f[0] for f in fails)]
     # concurrent clients and agent calls: the fake API's store operations + harness observations vs AppRelay
-    tlc_must_hold(ctx, "AppRelay", "AppRelay_MC.cfg")
+    if ctx.tier == "thorough":
+        tlc_must_hold(ctx, "AppRelay", "AppRelay_MCbig.cfg", timeout=1800)   # three requests on two backends, with retention
+    else:
+        tlc_must_hold(ctx, "AppRelay", "AppRelay_MC.cfg")     # two requests on two backends
+        tlc_must_hold(ctx, "AppRelay", "AppRelay_MC2.cfg")    # two requests on one backend
     tlc_must_fail(ctx, "AppRelay", "AppRelay_Attack_SharedResponseKey.cfg")
+    tlc_must_fail(ctx, "AppRelay", "AppRelay_Attack_ShortRetention.cfg")
     cev, _ = drive(ctx, "apprelayc", timeout=3000)
     csegs = split_segments(cev)
     cfails = validate_segments(ctx, "AppRelayTrace", "AppRelayTrace.cfg", csegs, batch=10)
